@@ -340,7 +340,7 @@ where
     }
 
     pub fn edge_count(&self) -> u64 {
-        self.edge_count_from() + self.edge_count_to()
+        self.edge_count_from().saturating_add(self.edge_count_to())
     }
 
     pub fn edge_count_from(&self) -> u64 {
@@ -562,7 +562,7 @@ where
         storage: &Storage<D>,
         index: GraphIndex,
     ) -> Result<GraphIndex, DbError> {
-        Ok(GraphIndex::from(-self.data.from(storage, index)?))
+        Ok(GraphIndex::from(self.data.from(storage, index)?.wrapping_neg()))
     }
 
     pub fn first_edge_to(
@@ -570,7 +570,7 @@ where
         storage: &Storage<D>,
         index: GraphIndex,
     ) -> Result<GraphIndex, DbError> {
-        Ok(GraphIndex::from(-self.data.to(storage, index)?))
+        Ok(GraphIndex::from(self.data.to(storage, index)?.wrapping_neg()))
     }
 
     pub fn insert_edge(
